@@ -142,6 +142,12 @@ def _op_bvp(ctx, op, state):
     tspec = tlist[ti] if mode == "tf" else None
     a, b = P["a"], P["b"]
     x = np.linspace(a, b, P["n"])
+    dense = int(o.get("dense") or 0)
+    if dense:
+        # a caller that starts from a fine mesh (and, in half of these, leaves the node budget at the library's default
+        # of 5000): the budget and the mesh size are related arguments
+        x = np.linspace(a, b, dense)
+        ctx.probes.hit("bvp-on-dense-initial-mesh")
     if tspec is not None:
         shared = state.setdefault("tf_shared", {})
         if o.get("share_tf"):
@@ -189,7 +195,7 @@ def _op_bvp(ctx, op, state):
 
         ctx.probes.hit("re-entrant-callback")
     bd = _bd_cond(P, twin)
-    if not o.get("own_inputs") and not o.get("reentrant"):
+    if not o.get("own_inputs") and not o.get("reentrant") and not dense:
         # the caller's own input objects (mesh array, coefficient list, boundary lists) are created once per run and
         # handed to every solve: a solver that edits them changes what the *next* solve of the same problem sees
         sh = state.setdefault("shared", {})
@@ -212,8 +218,15 @@ def _op_bvp(ctx, op, state):
         guess = np.array([OP.sol_deriv(P["terms"], k, np.asarray(x, dtype=float)) for k in range(P["order"])], dtype=float)
     ctx.rng.set_behaviour(beh, bseed)
     calls0 = ctx.rng.calls
-    oc = _outcome(lambda: solve_ode_bvp(x, fx, coeffs, bd, transform=tf, tol=P["tol"], max_nodes=MAX_NODES, initial_guess_y=guess, no_derivatives=not derivs))
+    budget = {} if (dense and o.get("default_budget")) else {"max_nodes": MAX_NODES}
+    oc = _outcome(lambda: solve_ode_bvp(x, fx, coeffs, bd, transform=tf, tol=P["tol"], initial_guess_y=guess, no_derivatives=not derivs, **budget))
     drew = ctx.rng.calls > calls0
+    if oc[0] == "raise" and not budget and "converge" in str(oc[1]):
+        # with the default budget of 5000 nodes a fine mesh may leave no room for the refinement a tight tolerance asks
+        # for: the library says so, which is fine
+        ctx.probes.hit("dense-mesh-default-budget-exhausted")
+        ctx.log.add(ctx.step, "bvp", "budget-exhausted")
+        return
     sig = f"{P['order']}:{_tname(tspec)}"
     mode_key = mode if mode == "direct" else f"tf{ti}"
     tol_used = P["tol"]
@@ -222,7 +235,7 @@ def _op_bvp(ctx, op, state):
         # says so honestly.  It must then succeed - and be accurate - at a tolerance 100x (at most 10^4 x) looser.
         for loosen in (1e2, 1e4):
             ctx.rng.set_behaviour(beh, bseed)
-            oc2 = _outcome(lambda: solve_ode_bvp(x, fx, coeffs, bd, transform=tf, tol=P["tol"] * loosen, max_nodes=MAX_NODES, initial_guess_y=guess, no_derivatives=not derivs))
+            oc2 = _outcome(lambda: solve_ode_bvp(x, fx, coeffs, bd, transform=tf, tol=P["tol"] * loosen, initial_guess_y=guess, no_derivatives=not derivs, **budget))
             if oc2[0] == "ok":
                 oc = oc2
                 tol_used = P["tol"] * loosen
@@ -325,7 +338,7 @@ def _op_bvp(ctx, op, state):
                 ctx.violate("scalar-vs-array", "bvp", sig, f"solution callable at the scalar {xs} gives {vs}, at the array element {float(y0[7])}")
             ctx.probes.hit("scalar-evaluation-compared")
     h = hash_array(yc)
-    rk = (mode_key, beh, bseed, derivs, o.get("guess"), bool(o.get("share_tf")))
+    rk = (mode_key, beh, bseed, derivs, o.get("guess"), bool(o.get("share_tf")), dense, bool(o.get("default_budget")))
     if o.get("share_tf"):
         pass  # sharing changes the object history, bit-equality is only demanded for fresh transforms
     elif rk in state["bits"]:
@@ -578,6 +591,9 @@ class OdeSeamEngine:
                 beh = rng.choice(BEHAVIOURS)
                 o = {"derivs": rng.random() < 0.8, "share_tf": rng.random() < 0.3, "own_inputs": rng.random() < 0.25, "ti": rng.randrange(3),
                      "reentrant": rng.random() < 0.12}
+                if rng.random() < 0.08:
+                    o["dense"] = rng.choice([100, 333, 600, 1000, 2000])
+                    o["default_budget"] = rng.random() < 0.6
                 if rng.random() < 0.12:
                     o["guess"] = rng.choice(["zeros", "zeros", "ones", "exact", "big"])  # an explicit initial guess instead of the draw
                 ops.append(["bvp", rng.choice(modes), beh, rng.randrange(1000), o])
